@@ -96,6 +96,27 @@ def run(ctx, model_available=True):
                 Profile(odd_payload=0.3, bad_version=0.3, unknown_node=0.4, p_fault=0.0)]
     rng = rng_for(ctx.seed, "C03gen")
     hs = directed() + [gen(rng, profiles[i % 2]) for i in range(ctx.budget(500, 8000))]
+    # the malformed / perturbed line stream of C02, through listen, in every version state
+    from props.c02 import gen_lines
+
+    class _Q:
+        quick = True
+        seed = ctx.seed
+
+        @staticmethod
+        def budget(q, t):
+            return max(40, q // (8 if ctx.quick else 1))
+
+    ml = [l for l in gen_lines(_Q) if len(l) < 400]
+    for i in range(0, len(ml), 25):
+        v = [None, "1.4", "1.5", "2.0", "2.1", "2.2"][(i // 25) % 6]
+        ops = [("recv", f"0;255;3;0;2;{v}", ())] if v else []
+        if (i // 25) % 2:
+            ops += [("put_node", 1, 17, "2.0", False), ("add_child", 1, 1, 0)]
+        for l in ml[i:i + 25]:
+            ops.append(("recv", l, ()))
+        ops.append(("recv", PROBE, ()))
+        hs.append(ops)
     res = run_property(ctx, "C03", histories=hs, n_quick=0, n_thorough=0, oracle=oracle_c03,
                        model_available=model_available,
                        assumptions=["round(float(x)) raises only ValueError/OverflowError; AwesomeVersion comparisons raise only AwesomeVersionException/ValueError (checked on the generated payloads)"])
